@@ -82,6 +82,13 @@ class CmdMixin(object):
         ctx = {"cm": cm, "msg": msg, "rest": rest, "others": others, "err": err, "cls": cls,
                "d": d, "ud": ud, "allowed": [], "uallowed": 0, "dumps": (st.before, st.after)}
         h(world, st, ctx)
+        # C06 (direct form, usage side): a command only ever writes usage rows of its own app
+        for (t, k, old, new) in ud:
+            if t in ("nameplates", "mailboxes", "client_versions") and new is not None and cm.bound:
+                self.ev["c06_usage_row_owner"] += 1
+                if new.get("app_id") != cm.app:
+                    self.flag({"C06", "C15"}, "command wrote a usage row for another app", st,
+                              {"table": t, "row": new, "conn_app": cm.app})
         self._footprint(world, st, ctx)
         self._message_frames_explained(world, st, ctx)
 
@@ -197,7 +204,12 @@ class CmdMixin(object):
             rows = [new for (t, k, old, new) in ctx["ud"] if t == "client_versions" and old is None]
             oth = [e for e in ctx["ud"] if not (e[0] == "client_versions" and e[2] is None)]
             if len(rows) != 1 or oth:
-                self.flag({"C15"}, "bind did not write exactly one client_versions row", st, {"udiff": _d(ctx["ud"])})
+                # whatever was written instead must still be blurred (C16)
+                unblurred = [new for (t, k, old, new) in ctx["ud"] if t == "client_versions" and new is not None
+                             and self.blur and (new.get("connect_time") is None or new["connect_time"] % self.blur != 0
+                                                or not (st.t - self.blur < new["connect_time"] <= st.t))]
+                self.flag({"C15"} | ({"C16"} if unblurred else set()), "bind did not write exactly one client_versions row", st,
+                          {"udiff": _d(ctx["ud"]), "unblurred": unblurred[:2]})
             else:
                 self._check_blur(st, "connect_time", rows[0]["connect_time"], st.t, "bind")
                 r = dict(rows[0])
@@ -365,6 +377,12 @@ class CmdMixin(object):
                 self.flag({"C03", "C07"}, "first claim of a free nameplate refused", st, {"name": name, "err": err})
                 return
             mid = claimed[0]["mailbox"]
+            lost = self.lost_np.pop(key, None)
+            if lost is not None:
+                self.ev["c03_claim_after_wrong_removal"] += 1
+                if cm.side in lost[1] and mid != lost[0]:
+                    self.flag({"C03"}, "a side still holding the nameplate is told a different mailbox id when it claims again", st,
+                              {"name": name, "side": cm.side, "told": mid, "earlier": lost[0]})
             n = NpInc(cm.app, name, self._new_n(), st.t)
             n.mid = mid
             n.attempts.append((cm.side, st.t))
